@@ -26,6 +26,8 @@ WINNOW_LEAVES = {
     "winnow::ascii::space0": ("set", "space", 0),
     "winnow::ascii::space1": ("set", "space", 1),
     "winnow::token::any": ("any",),
+    "winnow::combinator::rest": ("set", "everything", 0),
+    "winnow::token::rest": ("set", "everything", 0),
     "winnow::combinator::eof": ("eof",),
     "winnow::combinator::fail": ("fail",),
 }
@@ -142,6 +144,8 @@ def winnow_facts(repo=None):
 
 
 def named_set(name):
+    if name == "everything":
+        return cs_notin([])
     if name == "digit":
         return cs_in(DIGIT)
     if name == "alpha":
@@ -339,6 +343,12 @@ class Builder:
                         # value-level code choosing between several `Ok(..)` (a match / if over what was parsed): it reads no
                         # input and cannot fail
                         ret = e
+                        continue
+                if st["semi"]:
+                    inv = self._invocation(e, env)
+                    if inv is not None:
+                        # `<parser>.parse_next(input)?;` — a step whose result is dropped
+                        steps.append({"pat": {"k": "wild", "l": st.get("l")}, "p": inv, "l": st.get("l")})
                         continue
                 unknown.append(st)
                 continue
